@@ -71,8 +71,10 @@ class PandasTextCleaningFeatureGroup(TextCleaningFeatureGroup):
         Returns:
             The source text as a pandas Series
         """
-        # Convert to string if not already
-        return data[feature_name].astype(str)
+        # Convert to string if not already. A missing value becomes the empty text (as in the PythonDict
+        # implementation); left as NaN/"None" it makes normalize / remove_punctuation fail or clean the word "None"
+        source = data[feature_name]
+        return source.astype(str).where(source.notna(), "")
 
     @classmethod
     def _add_result_to_data(cls, data: pd.DataFrame, feature_name: str, result: pd.Series) -> pd.DataFrame:
